@@ -254,7 +254,7 @@ def _num(x):
 def order_cfg(res, cfg, max_states):
     import dask
 
-    tags = dict(leg2="order", kind2=cfg["kind"], func=cfg["func"], method=str(cfg.get("method")))
+    tags = dict(leg2="order", kind2=cfg["kind"], func=cfg["func"], method=str(cfg.get("method")), fill=str(cfg.get("fill_value")))
     size = len(cfg["chunks"]) * 10
     try:
         colls, user, eager = graphcfg.build(cfg)
